@@ -30,6 +30,9 @@ pub enum Item {
     Enc(EncResp),
     /// the client sends nothing for this many (virtual) milliseconds
     Stall(u32),
+    /// the body of the legal next packet under an id that shares its low bits with the legal id
+    /// (legal id + 2^7, 2^14, 2^21 or 2^28): some other packet, not the expected one
+    AliasLegal(u8),
 }
 
 #[derive(Clone, Debug, Serialize, Deserialize)]
@@ -261,7 +264,7 @@ fn run_case(case: &Case) -> (sim::SimOutcome, Vec<Step>, bool, u64, u64) {
                         let p = c.encryption_response(variant, &secret16).unwrap_or(Pkt::EncryptionResponse { secret: vec![1, 2, 3], token: vec![4, 5, 6] });
                         (p.id(), p.body())
                     }
-                    Item::Legal => {
+                    Item::Legal | Item::AliasLegal(_) => {
                         let p = match &st {
                             St::AwaitHandshake => Pkt::Handshake { protocol: 770, host: case.host.clone(), port: case.port, next: case.intent },
                             St::AwaitStatusRequest => Pkt::StatusRequest,
@@ -278,7 +281,13 @@ fn run_case(case: &Case) -> (sim::SimOutcome, Vec<Step>, bool, u64, u64) {
                             // nothing is legal any more: send a harmless status request
                             St::Ended | St::Unspecified => Pkt::StatusRequest,
                         };
-                        (p.id(), p.body())
+                        match item {
+                            Item::AliasLegal(k) => {
+                                legal_enc = false;
+                                (p.id() | (1i32 << [7u32, 14, 21, 28][usize::from(*k) % 4]), p.body())
+                            }
+                            _ => (p.id(), p.body()),
+                        }
                     }
                 };
                 last_frame = Some((id, body.clone()));
@@ -682,6 +691,7 @@ impl Check for C06 {
             2 => (prop_oneof![0x08i32..0x80, proptest::sample::select(vec![-1i32, 0x7f, 0x80, 0x3fff, i32::MAX, 5, 6, 7])], proptest::collection::vec(any::<u8>(), 0..20)).prop_map(|(id, body)| Item::Raw { id, body }),
             1 => (0i32..8, proptest::collection::vec(any::<u8>(), 0..30)).prop_map(|(id, body)| Item::Raw { id, body }),
             2 => Just(Item::Repeat),
+            2 => (0u8..4).prop_map(Item::AliasLegal),
             2 => prop_oneof![
                 (0u8..32).prop_map(EncResp::TokenPrefix),
                 (0u16..256).prop_map(EncResp::TokenFlip),
